@@ -6,6 +6,7 @@ A history is a tuple of ops on ONE element of type T (children are fresh, childl
    ('addf', a, i)        e.add_child(child(a), forward=i)
    ('rm', j)             e.remove(j-th child of the insertion view)
    ('rep', j, b)         e.replace_child(j-th child of the insertion view, child(b))
+   ('rmk', k)            e.remove(k-th child ever created in this history) -- also children that are no longer (or never were) attached
    ('set', a)            e.xml_<a> = child(a)            (shortcut syntax)
    ('unset', a)          e.xml_<a> = None
    ('str', ic)           e.to_string(intelligent_choice=ic)
@@ -82,6 +83,11 @@ def apply_op(lib, e, op, kids):
             if op[1] >= len(ch):
                 return 'n/a'
             e.remove(ch[op[1]])
+        elif k == 'rmk':
+            # remove the op[1]-th child ever created for this history, attached or not (stale references included)
+            if op[1] >= len(kids):
+                return 'n/a'
+            e.remove(kids[op[1]])
         elif k == 'rep':
             ch = e.get_children(ordered=False)
             if op[1] >= len(ch):
@@ -148,16 +154,24 @@ def present_model(h, outs):
     """multiset of child kinds the element should hold after h (spec of add/remove/replace), as a sorted list of names;
     None if the history contains an op whose target cannot be determined from the model (never here)"""
     cur = []          # insertion list of names
+    ids = []          # creation index of each attached child
+    nkid = -1
     for op, out in zip(h, outs):
+        k = op[0]
+        if k in ('add', 'addf', 'rep', 'set'):
+            nkid += 1            # a child object is created whether or not the op succeeds
         if out != 'ok':
             continue
-        k = op[0]
         if k in ('add', 'addf'):
-            cur.append(op[1])
+            cur.append(op[1]); ids.append(nkid)
         elif k == 'rm':
-            del cur[op[1]]
+            del cur[op[1]]; del ids[op[1]]
         elif k == 'rep':
             cur[op[1]] = op[2]
+            ids[op[1]] = nkid
+        elif k == 'rmk':
+            if op[1] in ids:
+                j = ids.index(op[1]); del cur[j]; del ids[j]
         elif k == 'set':
             # shortcut: replaces the first child of that kind if there is one, else adds
             if op[1] in cur:
@@ -213,6 +227,10 @@ def histories(alphabet, k_add, with_rm=True, with_rep=True, dup_names=(), k_afte
                 for j in range(k):
                     for b in alphabet:
                         yield tuple(seq) + (('rep', j, b),)
+                    # same-kind replacement followed by removal of the replaced (now stale) child, and a double removal
+                    a = seq[j][1]
+                    yield tuple(seq) + (('rep', j, a), ('rmk', j))
+                    yield tuple(seq) + (('rm', j), ('rmk', j))
     for a in dup_names:
         for i in range(0, 3):
             for k in range(0, max(0, k_add - 1) + 1):
